@@ -2,6 +2,8 @@
    bin/check from the working tree).  Requests on stdin:
      R <file> <query>,<query>,...   -> results joined by '|'  (same wire format as the Go harness)
      W <file> <unaligned,blocksize,skipidx,restart,sha256,exact> <min> <max> <refs> <logs>  -> ok | empty | err<code>
+     SR <dir> <sha256>              -> ok|<all refs>|<all logs> through the stack's merged table
+     SW <dir> <cfg> <op>!<op>...    -> a stack written by the C code (op = A~refs~logs | CA): status per op
 */
 #include <stdint.h>
 #include <stdio.h>
@@ -16,6 +18,8 @@
 #include "reftable-reader.h"
 #include "reftable-record.h"
 #include "reftable-writer.h"
+#include "reftable-merged.h"
+#include "reftable-stack.h"
 
 #define SHA1_ID 0x73686131
 #define SHA256_ID 0x73323536
@@ -222,26 +226,10 @@ static int split(char *s, char c, char **parts, int max)
 	return n;
 }
 
-static void do_write(char *file, char *cfg, char *mins, char *maxs, char *refs, char *logs)
+/* add refs then logs given in the wire format ("-" = none) */
+static int add_records(struct reftable_writer *w, char *refs, char *logs)
 {
-	struct reftable_write_options opts = { 0 };
-	char *c[6];
-	int fd, err = 0, hs;
-	struct reftable_writer *w;
-	if (split(cfg, ',', c, 6) != 6) {
-		printf("badcfg\n");
-		return;
-	}
-	opts.unpadded = atoi(c[0]);
-	opts.block_size = strtoul(c[1], NULL, 10);
-	opts.skip_index_objects = atoi(c[2]);
-	opts.restart_interval = atoi(c[3]);
-	opts.hash_id = atoi(c[4]) ? SHA256_ID : SHA1_ID;
-	opts.exact_log_message = atoi(c[5]);
-	hs = atoi(c[4]) ? 32 : 20;
-	fd = open(file, O_WRONLY | O_CREAT | O_TRUNC, 0644);
-	w = reftable_new_writer(fd_write, &fd, &opts);
-	reftable_writer_set_limits(w, strtoull(mins, NULL, 10), strtoull(maxs, NULL, 10));
+	int err = 0;
 	if (strcmp(refs, "-")) {
 		char *save = NULL, *r;
 		for (r = strtok_r(refs, ";", &save); r && !err; r = strtok_r(NULL, ";", &save)) {
@@ -299,8 +287,7 @@ static void do_write(char *file, char *cfg, char *mins, char *maxs, char *refs, 
 				log.value.update.tz_offset = (int16_t)(uint16_t)strtoul(p[8], NULL, 10);
 				log.value.update.message = (char *)(msg = unhex(n > 9 ? p[9] : "", NULL));
 			}
-			(void)hs;
-			err = reftable_writer_add_log(w, &log);
+						err = reftable_writer_add_log(w, &log);
 			free(name);
 			free(o);
 			free(nw);
@@ -309,6 +296,30 @@ static void do_write(char *file, char *cfg, char *mins, char *maxs, char *refs, 
 			free(msg);
 		}
 	}
+	return err;
+}
+
+static void do_write(char *file, char *cfg, char *mins, char *maxs, char *refs, char *logs)
+{
+	struct reftable_write_options opts = { 0 };
+	char *c[6];
+	int fd, err = 0, hs;
+	struct reftable_writer *w;
+	if (split(cfg, ',', c, 6) != 6) {
+		printf("badcfg\n");
+		return;
+	}
+	opts.unpadded = atoi(c[0]);
+	opts.block_size = strtoul(c[1], NULL, 10);
+	opts.skip_index_objects = atoi(c[2]);
+	opts.restart_interval = atoi(c[3]);
+	opts.hash_id = atoi(c[4]) ? SHA256_ID : SHA1_ID;
+	opts.exact_log_message = atoi(c[5]);
+	hs = atoi(c[4]) ? 32 : 20;
+	fd = open(file, O_WRONLY | O_CREAT | O_TRUNC, 0644);
+	w = reftable_new_writer(fd_write, &fd, &opts);
+	reftable_writer_set_limits(w, strtoull(mins, NULL, 10), strtoull(maxs, NULL, 10));
+	err = add_records(w, refs, logs);
 	if (!err)
 		err = reftable_writer_close(w);
 	reftable_writer_free(w);
@@ -319,6 +330,101 @@ static void do_write(char *file, char *cfg, char *mins, char *maxs, char *refs, 
 		printf("err%d\n", err);
 	else
 		printf("ok\n");
+}
+
+
+/* SR <dir> <sha256>: open the stack directory, scan all refs and all logs through its merged table */
+static void do_stack_read(char *dir, char *sha)
+{
+	struct reftable_write_options cfg = { 0 };
+	struct reftable_stack *st = NULL;
+	struct reftable_merged_table *mt;
+	struct reftable_iterator it = { 0 };
+	int hs = atoi(sha) ? 32 : 20, err;
+	cfg.hash_id = atoi(sha) ? SHA256_ID : SHA1_ID;
+	err = reftable_new_stack(&st, dir, cfg);
+	if (err < 0) {
+		printf("err%d\n", err);
+		return;
+	}
+	mt = reftable_stack_merged_table(st);
+	printf("ok|");
+	err = reftable_merged_table_seek_ref(mt, &it, "");
+	if (err < 0)
+		printf("err");
+	else if (err == 0)
+		drain_refs(&it, hs);
+	if (it.ops)
+		reftable_iterator_destroy(&it);
+	memset(&it, 0, sizeof(it));
+	printf("|");
+	err = reftable_merged_table_seek_log(mt, &it, "");
+	if (err < 0)
+		printf("err");
+	else if (err == 0)
+		drain_logs(&it, hs);
+	if (it.ops)
+		reftable_iterator_destroy(&it);
+	printf("\n");
+	reftable_stack_destroy(st);
+}
+
+struct add_arg {
+	struct reftable_stack *st;
+	char *refs;
+	char *logs;
+};
+
+static int stack_write_cb(struct reftable_writer *w, void *argv)
+{
+	struct add_arg *a = argv;
+	uint64_t ui = reftable_stack_next_update_index(a->st);
+	reftable_writer_set_limits(w, ui, ui);
+	return add_records(w, a->refs, a->logs);
+}
+
+/* SW <dir> <cfg> <op>!<op>...   op = A~<refs>~<logs> | CA   -> status per op joined by ',' */
+static void do_stack_write(char *dir, char *cfg, char *ops)
+{
+	struct reftable_write_options opts = { 0 };
+	struct reftable_stack *st = NULL;
+	char *c[6], *save = NULL, *o;
+	int err, first = 1;
+	if (split(cfg, ',', c, 6) != 6) {
+		printf("badcfg\n");
+		return;
+	}
+	opts.unpadded = atoi(c[0]);
+	opts.block_size = strtoul(c[1], NULL, 10);
+	opts.skip_index_objects = atoi(c[2]);
+	opts.restart_interval = atoi(c[3]);
+	opts.hash_id = atoi(c[4]) ? SHA256_ID : SHA1_ID;
+	opts.exact_log_message = atoi(c[5]);
+	opts.skip_name_check = 1;
+	err = reftable_new_stack(&st, dir, opts);
+	if (err < 0) {
+		printf("openerr%d\n", err);
+		return;
+	}
+	for (o = strtok_r(ops, "!", &save); o; o = strtok_r(NULL, "!", &save)) {
+		if (!strcmp(o, "CA")) {
+			err = reftable_stack_compact_all(st, NULL);
+		} else {
+			char *p[3];
+			struct add_arg a = { st, NULL, NULL };
+			if (split(o, '~', p, 3) != 3) {
+				err = -100;
+			} else {
+				a.refs = p[1];
+				a.logs = p[2];
+				err = reftable_stack_add(st, stack_write_cb, &a);
+			}
+		}
+		printf("%s%s", first ? "" : ",", err < 0 ? "err" : "ok");
+		first = 0;
+	}
+	printf("\n");
+	reftable_stack_destroy(st);
 }
 
 int main(void)
@@ -333,6 +439,10 @@ int main(void)
 			do_read(p[1], p[2]);
 		else if (n == 7 && !strcmp(p[0], "W"))
 			do_write(p[1], p[2], p[3], p[4], p[5], p[6]);
+		else if (n == 3 && !strcmp(p[0], "SR"))
+			do_stack_read(p[1], p[2]);
+		else if (n == 4 && !strcmp(p[0], "SW"))
+			do_stack_write(p[1], p[2], p[3]);
 		else
 			printf("badrequest\n");
 		fflush(stdout);
